@@ -49,7 +49,10 @@ import (
 )
 
 func init() {
-	register("reuse", 8, runReuse)
+	// one history at a time per process (bin/propdefs/c06.py shards the cases over several implrun
+	// processes): the payload-buffer race D14 (C20) lets an abandoned worker write bytes recycled by
+	// ANOTHER goroutine of the process; with a single history in flight nobody recycles them.
+	register("reuse", 1, runReuse)
 	register("reuse_stress", 4, runReuseStressParent)
 	register("reuse_stress_child", 1, runReuseStress)
 }
